@@ -108,9 +108,17 @@ type AVia struct {
 	Host      string   `json:"host"`
 	Port      int      `json:"port,omitempty"`
 	Params    []AParam `json:"params,omitempty"`
+	// Raw: the entry's text as written - a well-formed via-parm this proxy's
+	// decoder does not take (IPv6 reference, blanks around the slashes). It sits
+	// on a header line of its own, teaches the proxy nothing and must be
+	// relayed as it is.
+	Raw string `json:"raw,omitempty"`
 }
 
 func (v AVia) String() string {
+	if v.Raw != "" {
+		return v.Raw
+	}
 	s := v.Proto + "/" + v.Ver + "/" + v.Transport + " " + v.Host
 	if v.Port != 0 {
 		s += ":" + strconv.Itoa(v.Port)
